@@ -175,6 +175,48 @@ CHECKS = {
              'quick tier runs a selection (every place with a must-be-killed child), the thorough tier all 870 cases; '
              'grandchildren of shells are outside the property.',
         design='5/C19'),
+    'C15': dict(
+        engine='spec/DirTree.tla, spec/DirTreeExport.tla',
+        technique='TLC model checking of two step machines (populating a directory from a FILE-LIST; the breadth-first '
+                  'generator of -recursive with depth limits, pruning and selection) with the matchers as recursive '
+                  'operators + replay of every enumerated FILE-LIST / tree x matcher through the real CLI',
+        text='TLC checks PopulateDenotation, InvalidCreatesNothing, NothingOutside, GeneratorIsReference, BreadthFirst, '
+             'PruneBeforeSelection, FullIsExact, QuantifierDuality, PopulateThenMatchRoundTrip and NameParts over every '
+             'FILE-LIST of <= 3 entries and every tree of <= 3 nodes (files, dirs, links to files / dirs outside / broken), '
+             'for every visiting order of directory entries; every scenario is executed with --keep and the tree on disk '
+             '(also after HARD_ERROR), the verdicts of the files- and file-matchers and the surroundings are compared.',
+        note='Bounded tree / list size (plus seeded random larger ones in the thorough tier); probes whose result depends '
+             'on directory iteration order are not compared; a model-level deviation (NoNameValidation) must be refuted.',
+        design='5/C15'),
+    'C18': dict(
+        level='exploration',
+        engine='spec/Robust.tla, spec/RobustExport.tla',
+        technique='model-guided exploration: TLC enumerates / simulates derivations of an abstract test-case grammar with '
+                  'known defect classes and token mutations and states the outcomes allowed per class; every generated '
+                  'text (and seeded mutants of the repository\'s .case files) is run by unprivileged workers under a '
+                  'deadline',
+        text='The input space is every text, so this is exploration, not enumeration: all single-instruction derivations '
+             'over 19 instruction skeletons x classes of INTEGER / REGEX / replacement / range / typed-symbol fillers, '
+             'random two-instruction derivations with up to two token mutations from TLC -simulate, and thousands of '
+             'mutated corpus files; each must end with a documented outcome allowed for its class, never INTERNAL_ERROR, an '
+             'escaping exception or no termination.',
+        note='Only classes the model can classify from the text are held to {SYNTAX_ERROR, VALIDATION_ERROR, HARD_ERROR}; '
+             'D7 was found and repaired (three fix: commits); D9 (astronomically large integers) and D10 (unbounded eval) '
+             'are open known findings with input signatures.',
+        design='5/C18'),
+    'C20': dict(
+        engine='spec/Help.tla, spec/HelpExport.tla',
+        technique='TLC checks static relations and a nondeterministic request-resolution machine over the universe observed '
+                  'from the real program (accepted names, help lists, ids and hrefs of the HTML manual) + replay of every '
+                  'help request the machine resolves through the real CLI',
+        text='The constants of Help.tla are bound at check time to what the program accepts (674 probes of instruction, '
+             'entity, symbol, reporter, actor and header names) and to what the help and the manual list; TLC checks '
+             'DocumentedIffAccepted, the entity / directive / suite relations, AnchorsUnique, EveryRefHasAnchor, '
+             'RefTargetExactlyOnce and, for the grammar of `help help` as a 31-action machine, ResolveTotal and '
+             'Every*Resolves; ~15 000 requests are replayed and the page kind compared.',
+        note='The model is static relations plus a small decision procedure - all the property contains; where the synopsis '
+             'is ambiguous or silent the machine is nondeterministic (either reading accepted).',
+        design='5/C20'),
 }
 
 NOT_YET = 'check not built yet (planned in DESIGN.md section 5); no claim is made'
